@@ -45,7 +45,7 @@ func richStmt(t *rapid.T, o RichOpts) script.Stmt {
 	for i := 0; i < n; i++ {
 		switch k := rapid.IntRange(0, 13).Draw(t, "op"); {
 		case k <= 4:
-			st.Ops = append(st.Ops, script.Op{K: "row", Vals: Row(st.Cols, 20, true).Draw(t, "row")})
+			st.Ops = append(st.Ops, script.Op{K: "row", Vals: MaybeBig(t, Row(st.Cols, 20, true).Draw(t, "row"))})
 		case k == 5: // wrong arity
 			st.Ops = append(st.Ops, script.Op{K: "row", Vals: []script.Val{{T: "text", S: "x"}, {T: "text", S: "y"}}[:rapid.IntRange(0, 2).Draw(t, "arity")]})
 		case k == 6 && nc > 0: // abandoned half-way: unencodable value at column k
@@ -254,6 +254,8 @@ func Rich(t *rapid.T, o RichOpts) play.History {
 			m = script.CMsg{K: "E", Portal: rapid.SampledFrom(richPortalNames).Draw(t, "portal"), Limit: rapid.SampledFrom([]uint32{0, 0, 1, 4294967295}).Draw(t, "limit")}
 		case k == 16:
 			m = script.CMsg{K: "C", Kind: rapid.SampledFrom([]byte{'S', 'P'}).Draw(t, "kind"), Name: rapid.SampledFrom(richStmtNames).Draw(t, "stmt"), Portal: rapid.SampledFrom(richPortalNames).Draw(t, "portal")}
+		case k == 17 && rapid.IntRange(0, 3).Draw(t, "terminate?") == 0:
+			m = script.CMsg{K: "X"} // what follows is sent all the same
 		case k == 17:
 			m = script.CMsg{K: "H"}
 		case k <= 19:
@@ -267,7 +269,15 @@ func Rich(t *rapid.T, o RichOpts) play.History {
 				if rapid.Bool().Draw(t, "with-header") {
 					b = append(b, "PGCOPY\n\377\r\n\x00\x00\x00\x00\x00\x00\x00\x00\x00"...)
 				}
-				nf := rapid.SampledFrom([]int{0, 1, 2, 3, 4, 6, 13, 14}).Draw(t, "nfields")
+				nf := rapid.SampledFrom([]int{0, 1, 2, 3, 4, 6, 13, 14, 0xFFFF, 0xFFFF}).Draw(t, "nfields")
+				if nf == 0xFFFF {
+					// the end-of-data trailer; what the transport does behind it is the fault plan's business
+					b = append(b, 0xff, 0xff)
+					nf = 0
+					m.Data = b
+					h.Msgs = append(h.Msgs, m)
+					continue
+				}
 				b = append(b, byte(nf>>8), byte(nf))
 				for f := 0; f < nf; f++ {
 					if rapid.Bool().Draw(t, "null-field") {
